@@ -74,7 +74,7 @@ def run(tier, seed):
     # canonical plain frames (Lean generator; python reference encoder for built-in types and compressed members) are read by the
     # plain reader, written encrypted and plain, and the cipher stream is read back by the decrypting reader
     import pyenc, zlib
-    conts = build_corpus()
+    conts = build_corpus(expanded=True)
     drv = Driver()
     pools = {}
     world = [c for c in conts if c["lib"] != "login"]
